@@ -340,6 +340,22 @@ def delete_item(ip, t, st):
             return res
         raise U("del with general slice")
     for s2, (base, idx) in ip.ev_many([t.value, t.slice], st):
+        if isinstance(base, Ref) and isinstance(s2.heap[base.cid], LstCell):
+            term = ip.deref(s2, base)
+            n = ip.reg.l_len(term)
+            i = ip.norm_index(ip.num(idx), n)
+            s3 = ip.check_index(s2, i, n)
+            if s3 is None:
+                continue
+            nt = ip.reg.new("del", term.sort)
+            s3.assume(EQ(ip.reg.l_len(nt), SUB(n, I(1))))
+            q = T("q%d" % next(ip.bound), "Int")
+            s3.assume(T("(forall ((%s Int)) (! (=> (and (<= 0 %s) (< %s %s)) (= %s (ite (< %s %s) %s %s))) :pattern (%s)))" % (
+                q.s, q.s, q.s, SUB(n, I(1)).s, ip.reg.l_get(nt, q).s, q.s, i.s, ip.reg.l_get(term, q).s,
+                ip.reg.l_get(term, ADD(q, I(1))).s, ip.reg.l_get(nt, q).s), "Bool"))
+            ip.store(s3, base, nt)
+            res.append(s3)
+            continue
         if isinstance(base, Ref) and isinstance(s2.heap[base.cid], ValCell):
             from .dicts import val_delete
             res += val_delete(ip, s2, base, idx)
@@ -511,12 +527,27 @@ def iter_next(ip, st, it, default=None):
     ok = st.fork(has, "V.") if has.s != "true" else st
     val = src.get(cell.cursor)
     nc = IterCell(cell.src, ADD(cell.cursor, I(1)), cell.name, cell.limit)
-    for a in ("live", "upstream"):
+    for a in ("live", "upstream", "shared"):
         if hasattr(cell, a):
             setattr(nc, a, getattr(cell, a))
     ok.heap[it.cid] = nc
+    sync_shared(ip, ok, nc)
     outs.append((ok, val))
     return outs
+
+
+def sync_shared(ip, st, cell):
+    """an islice shares its underlying iterator: what the slice takes is taken from the underlying one"""
+    under = getattr(cell, "shared", None)
+    if under is None:
+        return
+    ucell = st.heap[under.cid]
+    nu = IterCell(ucell.src, cell.cursor, ucell.name, ucell.limit)
+    for a in ("live", "upstream", "shared"):
+        if hasattr(ucell, a):
+            setattr(nu, a, getattr(ucell, a))
+    st.heap[under.cid] = nu
+    sync_shared(ip, st, nu)
 
 
 # --------------------------------------------------------------------------- loops
@@ -581,6 +612,53 @@ def mutated_roots(ip, body_nodes):
     return names, roots, yields, elem_state
 
 
+def rebinds_same_constant(body_nodes, name, cur):
+    """every assignment to `name` in the loop body is a plain `name = <the same constant>` (or a def / lambda)"""
+    for top in body_nodes:
+        for n in ast.walk(top):
+            targets = []
+            if isinstance(n, ast.Assign):
+                targets = n.targets
+                value = n.value
+            elif isinstance(n, (ast.AugAssign, ast.AnnAssign)):
+                targets, value = [n.target], None
+            elif isinstance(n, ast.For):
+                targets, value = [n.target], None
+            elif isinstance(n, ast.withitem) and n.optional_vars is not None:
+                targets, value = [n.optional_vars], None
+            elif isinstance(n, ast.ExceptHandler) and n.name == name:
+                if not isinstance(cur, ExcV):
+                    return False
+                continue
+            elif isinstance(n, ast.FunctionDef) and n.name == name:
+                if not (isinstance(cur, Fun)):
+                    return False
+                continue
+            else:
+                continue
+            for t in targets:
+                hit = False
+                for x in ast.walk(t):
+                    if isinstance(x, ast.Name) and x.id == name:
+                        hit = True
+                if not hit:
+                    continue
+                if not (isinstance(t, ast.Name) and value is not None):
+                    return False
+                if isinstance(cur, NoneV):
+                    if not (isinstance(value, ast.Constant) and value.value is None):
+                        return False
+                elif isinstance(cur, Str):
+                    if not (isinstance(value, ast.Constant) and value.value == cur.s):
+                        return False
+                elif isinstance(cur, Fun):
+                    if not isinstance(value, ast.Lambda):
+                        return False
+                elif isinstance(cur, (View, Sentinel, Module, ExcV)):
+                    return False
+    return True
+
+
 MUTATORS_ = {"append", "extend", "pop", "insert", "update", "appendleft", "popleft", "clear", "remove", "sort",
              "reverse", "setdefault", "popitem"}
 
@@ -588,6 +666,7 @@ MUTATORS_ = {"append", "extend", "pop", "insert", "update", "appendleft", "pople
 def havoc_loop(ip, node, h, spec, body_nodes):
     from .calls import havoc_value
     names, roots, yields, elem_state = mutated_roots(ip, body_nodes)
+    names |= set(getattr(spec, "body_ghost", {}).keys())
     keep = set(spec.keep)
     # heap contents first (evaluated in the pre-havoc environment so that aliases resolve)
     pending = []
@@ -668,14 +747,19 @@ def havoc_loop(ip, node, h, spec, body_nodes):
                     h.env[n] = ip.new_cell(h, IterCell(ip.lst_view(nt), cur0, name=None))
                 else:
                     raise U("loop rebinds `%s` holding %s: give it a declared type via LoopSpec.ghost" % (n, type(cell).__name__))
-            elif isinstance(cur, (Num, Bool, Opaque, Tup, NoneV)):
+            elif isinstance(cur, (Num, Bool, Opaque, Tup)):
                 if n in spec.ghost:
                     h.env[n] = ip.make(spec.ghost[n], n, h)
                 else:
                     h.env[n] = havoc_value(ip, h, cur, n)
-            elif isinstance(cur, (Fun, Str, Module, Sentinel, View, ExcV)):
+            elif isinstance(cur, (Fun, Str, Module, Sentinel, View, ExcV, NoneV)):
                 if n in spec.ghost:
                     h.env[n] = ip.make(spec.ghost[n], n, h)
+                elif not rebinds_same_constant(body_nodes, n, cur):
+                    # a name holding a constant (None, a string, a function) before the loop that the body may re-bind
+                    # to something else: its value at the loop head is not known
+                    raise U("loop re-binds `%s` (a constant before the loop) to other values: declare its type in "
+                            "LoopSpec.ghost" % n)
                 # closures / constants re-bound identically in each iteration keep their value
             else:
                 raise U("havoc of local %s = %r" % (n, cur))
@@ -789,11 +873,13 @@ def st_While(ip, s, st):
     spec = ip.loop_spec(k)
     if spec is None:
         raise U("loop #%d (while) needs an invariant in the contract" % k)
+    ghost_init(ip, spec, st)
     check_invariants(ip, k, spec, st, "init")
     h = st.fork(None, "L%d:" % k)
     havoc_loop(ip, s, h, spec, s.body + [ast.Expr(value=s.test)])
     set_loop_ghost(ip, h, k, None)
     assume_invariants(ip, spec, h)
+    h.notes["epoch_%s" % k] = getattr(ip, "n_cells", 0)
     m0 = measure(ip, spec, h)
     if m0 is None and not ip.c.trusted:
         ip.assumptions.add("termination of loop #%d of %s not proved (no decreases clause)" % (k, ip.c.name))
@@ -802,6 +888,7 @@ def st_While(ip, s, st):
         c = ip.truth(s2, v)
         if c.s != "false":
             b = s2.fork(c, "") if c.s != "true" else s2
+            ghost_body(ip, spec, b)
             for kind, s3, payload in exec_block(ip, s.body, b):
                 if kind in ("next", "continue"):
                     end_of_body(ip, k, spec, s3, m0)
@@ -814,6 +901,28 @@ def st_While(ip, s, st):
             x = s2.fork(NOT(c), "X.") if c.s != "false" else s2
             outs.append(("next", x, None))
     return outs
+
+
+def ghost_init(ip, spec, st):
+    """ghost variables of a loop: `init_ghost` is evaluated once before the loop"""
+    from .calls import spec_state
+    for name, expr in getattr(spec, "init_ghost", {}).items():
+        ip.spec_mode += 1
+        try:
+            st.env[name] = ip.ev1(ip.contracts_parse(expr), spec_state(st, ip.spec_env(st)))
+        finally:
+            ip.spec_mode -= 1
+
+
+def ghost_body(ip, spec, st):
+    """`body_ghost` assignments run at the start of every iteration (after the loop test / the binding of the target)"""
+    from .calls import spec_state
+    for name, expr in getattr(spec, "body_ghost", {}).items():
+        ip.spec_mode += 1
+        try:
+            st.env[name] = ip.ev1(ip.contracts_parse(expr), spec_state(st, ip.spec_env(st)))
+        finally:
+            ip.spec_mode -= 1
 
 
 def set_loop_ghost(ip, st, k, i_term):
@@ -895,6 +1004,7 @@ def for_iterator(ip, s, st, it, k, spec, is_list=False):
     """for <target> in <iterator>: cut at the invariant; ghost `_i` = number of completed iterations"""
     set_loop_ghost(ip, st, k, I(0))
     st.notes["loop_it_%d" % k] = it
+    ghost_init(ip, spec, st)
     check_invariants(ip, k, spec, st, "init")
     h = st.fork(None, "L%d:" % k)
     i_t = ip.reg.new("_i%d" % k, "Int")
@@ -904,10 +1014,11 @@ def for_iterator(ip, s, st, it, k, spec, is_list=False):
     cell = h.heap[it.cid]
     if getattr(cell, "kind", None) is None:
         nc = IterCell(cell.src, ADD(start_cell.cursor, i_t), cell.name, cell.limit)
-        for a in ("live", "upstream"):
-            if hasattr(cell, a):
-                setattr(nc, a, getattr(cell, a))
+        for a in ("live", "upstream", "shared"):
+            if hasattr(start_cell, a):
+                setattr(nc, a, getattr(start_cell, a))
         h.heap[it.cid] = nc
+        sync_shared(ip, h, nc)
     h.assume(CMP(">=", i_t, I(0)))
     hc = h.heap[it.cid]
     if getattr(hc, "kind", None) is None and getattr(hc, "live", None) is None and hc.src is not None:
@@ -944,18 +1055,23 @@ def for_iterator(ip, s, st, it, k, spec, is_list=False):
         sx.catching = saved_catch
         if exc.cls == "StopIteration":
             sx.trace += "X."
+            sx.notes["inloop_%s" % k] = False
             outs.append(("next", sx, None))
         else:
             ip._exc_out.append((sx, exc))
     for s2, val in results:
         s2.catching = saved_catch
+        s2.notes["epoch_%s" % k] = getattr(ip, "n_cells", 0)
+        s2.notes["inloop_%s" % k] = True
         for s3 in assign_to(ip, s.target, val, s2):
+            ghost_body(ip, spec, s3)
             for kind, s4, payload in exec_block(ip, s.body, s3):
                 if kind in ("next", "continue"):
                     set_loop_ghost(ip, s4, k, ADD(i_t, I(1)))
                     end_of_body(ip, k, spec, s4, m0)
                 elif kind == "break":
                     s4.trace += "B."
+                    s4.notes["inloop_%s" % k] = False
                     outs.append(("next", s4, None))
                 else:
                     outs.append((kind, s4, payload))
